@@ -381,6 +381,23 @@ fn run_op(w: &mut World, full_name: &str, flag: bool, dry: bool, variant: u64) -
             let _ = backup_dir(w.open()?, &p, "big", Some(o))?;
             Ok(())
         }
+        "backup" if variant == 2 || variant == 3 => {
+            // the stdin branches of `backup`: source `-` with a stdin command (2) or the process' stdin (3;
+            // the check runs the harness with an empty stdin)
+            let mut o = BackupOptions::default().stdin_filename("stdin-c15");
+            o.dry_run = dry;
+            if variant == 2 {
+                let cmd = format!("echo c15-stdin-data-{}-{}", w.nbackup, w.rng.next());
+                o.stdin_command = Some(cmd.parse().map_err(|e| anyhow!("{e:?}"))?);
+            }
+            if flag {
+                o.parent_opts.force = true;
+            }
+            w.nbackup += 1;
+            let repo = w.open()?.to_indexed_ids()?;
+            let _ = repo.backup(&o, &rustic_core::PathList::from_string("-")?, SnapshotFile::default())?;
+            Ok(())
+        }
         "backup" => {
             let src = if variant == 1 && !w.dirs.is_empty() { w.dirs[w.dirs.len() - 1].path().to_path_buf() } else { w.new_source()? };
             let mut o = BackupOptions::default();
@@ -610,19 +627,29 @@ fn seq_case(line: &str) -> String {
         if let Some(h) = &w.rec_hot { let _ = h.take_log(); }
         let pre_c = w.cold.snapshot();
         let pre_h = w.hot.as_ref().map(|h| h.snapshot());
+        let threads = || std::fs::read_dir("/proc/self/task").map(|d| d.count()).unwrap_or(0);
+        let threads_before = threads();
         let r = std::panic::catch_unwind(std::panic::AssertUnwindSafe(|| run_op(&mut w, &name, flag, dry, variant)));
-        // an operation that failed may leave packer threads behind that still write a pack: wait
-        // until the log is quiet so that a late write is attributed to the operation that caused it
-        if !matches!(r, Ok(Ok(()))) {
-            let len = |w: &World| w.rec_cold.log.lock().unwrap().len() + w.rec_hot.as_ref().map_or(0, |h| h.log.lock().unwrap().len());
-            let mut last = len(&w);
+        // An operation that failed, and a dry-run, may leave detached packer threads behind that
+        // still write a pack after the call returned.  Barrier: wait until the number of threads of
+        // the process and the log are quiet; writes that arrive after the return are counted (`late`)
+        // and attributed to the operation that caused them.
+        let len = |w: &World| w.rec_cold.log.lock().unwrap().len() + w.rec_hot.as_ref().map_or(0, |h| h.log.lock().unwrap().len());
+        let at_return = len(&w);
+        if dry || !matches!(r, Ok(Ok(()))) {
+            // every thread the operation spawned has exited (thread count back at the level before the
+            // call): nothing can write any more - done.  Otherwise (a thread pool grew, or a detached
+            // writer is still pending) wait until thread count and log have been quiet for 180 ms.
+            let mut last = (threads(), len(&w));
             let mut stable = 0;
-            for _ in 0..80 {
-                std::thread::sleep(std::time::Duration::from_millis(20));
-                let n = len(&w);
-                if n == last { stable += 1; if stable >= 3 { break; } } else { stable = 0; last = n; }
+            for _ in 0..200 {
+                if last.0 <= threads_before && stable >= 1 { break; }
+                std::thread::sleep(std::time::Duration::from_millis(15));
+                let now = (threads(), len(&w));
+                if now == last { stable += 1; if stable >= 12 { break; } } else { stable = 0; last = now; }
             }
         }
+        let late = len(&w) - at_return;
         let mut cls = BTreeMap::new();
         let post_c = w.cold.snapshot();
         let part = if hotcold { "cold." } else { "" };
@@ -654,7 +681,7 @@ fn seq_case(line: &str) -> String {
             Err(_) => "panic".to_string(),
         };
         let eff: Vec<String> = cls.iter().map(|(k, v)| format!("{k}*{v}")).collect();
-        outs.push(format!("{name}:ao={},c={cold_ao},h={handle_ao}:{res}:lost={lost}:{}", u8::from(ao), if eff.is_empty() { "-".to_string() } else { eff.join(",") }));
+        outs.push(format!("{name}:ao={},c={cold_ao},h={handle_ao}:{res}:lost={lost},late={late}:{}", u8::from(ao), if eff.is_empty() { "-".to_string() } else { eff.join(",") }));
     }
     outs.join(" ; ")
 }
